@@ -387,6 +387,13 @@ func (c *clientFile) readAt(p []byte, offset int64) (int, error) {
 		return 0, err
 	}
 
+	// A server must not return more than was asked for. If it does, fail
+	// the read instead of reporting more bytes than p holds, which makes
+	// callers (chunk, xattrWalkRead) slice out of range and panic.
+	if len(rread.Data) > len(p) {
+		return 0, linux.EIO
+	}
+
 	// The message may have been truncated, or for some reason a new buffer
 	// allocated. This isn't the common path, but we make sure that if the
 	// payload has changed we copy it. See transport.go for more information.
